@@ -507,6 +507,18 @@ def check_program(agg, session, src, origin, cfg, pool, maxar, canary,
 CANARY0 = [None]
 
 
+def other_world(legacy):
+    o = core.Session(secure=False, legacy=legacy)
+    try:
+        o.interp.interpret("require IO; require OS; require Sys", "other")
+    except BaseException:
+        try:
+            o.interp.interpret("require IO; require OS", "other")
+        except BaseException:
+            pass
+    return o
+
+
 def explore(chunk):
     agg = core.Agg()
     install_seam()
@@ -530,9 +542,13 @@ def explore(chunk):
                           "baseline", cfg, pool, chunk["maxar"], d)
             agg.count("cases")
             continue
+        other_world(legacy)
         for origin, src, fresh in chunk["programs"]:
             if fresh:
                 session = core.Session(secure=True, legacy=legacy)
+                # the host also runs a non-secure interpreter, created
+                # AFTER the secure one and with its OS modules loaded
+                other_world(legacy)
             else:
                 session.reset()
             check_program(agg, session, src, origin, cfg, pool,
@@ -567,6 +583,7 @@ def replay(case, verbose=False):
         if case.get("cfg") not in (None, cfg):
             continue
         s = core.Session(secure=True, legacy=legacy)
+        other_world(legacy)
         src = case["src"] if case["kind"] == "program" else case["origin"]
         host = case.get("host")
         if host is None and "  [host env: " in src:
